@@ -1811,15 +1811,24 @@ impl Prop for C07 {
         match &pairs {
             None => stats.bump("request_with_bad_index_or_number"),
             Some(pairs) => {
-                let libs: HashMap<&(String, String), bool> =
-                    p.oracle_libs.iter().map(|(k, l)| (k, l.ends_with(" ok"))).collect();
-                let addrs: BTreeSet<(&(String, String), u32)> = p.oracle_addrs.iter().map(|(k, a, _)| (k, *a)).collect();
+                // keyed like the model's tables: debug name + `DebugId` (two spellings of one id share their
+                // lines); a malformed id needs no lines (the model decides it by itself)
+                let okey = |k: &(String, String)| -> Option<(String, String)> {
+                    match DebugId::from_breakpad(&k.1) {
+                        Ok(d) if !d.is_nil() => Some((k.0.clone(), d.breakpad().to_string())),
+                        _ => None,
+                    }
+                };
+                let libs: HashMap<(String, String), bool> =
+                    p.oracle_libs.iter().filter_map(|(k, l)| okey(k).map(|k| (k, l.ends_with(" ok")))).collect();
+                let addrs: BTreeSet<((String, String), u32)> = p.oracle_addrs.iter().filter_map(|(k, a, _)| okey(k).map(|k| (k, *a))).collect();
                 for (lib, aa) in pairs {
-                    match libs.get(lib) {
+                    let Some(lib) = okey(lib) else { continue };
+                    match libs.get(&lib) {
                         None => return vec!["incomplete-oracle".into()],
                         Some(false) => {}
                         Some(true) => {
-                            if aa.iter().any(|a| !addrs.contains(&(lib, *a))) {
+                            if aa.iter().any(|a| !addrs.contains(&(lib.clone(), *a))) {
                                 return vec!["incomplete-oracle".into()];
                             }
                         }
